@@ -440,3 +440,36 @@ theorem sidecar_filter (env : Validate.Env) (g : Guards) (doc : Json) :
   ⟨sidecar_filter_partial g _ doc (by intro i hi; simp [Closed.sidecarOracle] at hi), rfl⟩
 
 end HedVerif.C12
+
+/-! ## folding: the hypothesis under which the offsets of lookup errors are right -/
+namespace HedVerif.C12
+open HedVerif HedVerif.Schema
+
+/-- **The model's fold preserves length** (ASCII lower-casing, character by character).  This is the exact hypothesis
+under which `offsets_closed` / `fragment_is_text_slice` speak about the real code: `_find_tag_entry` measures the
+offsets of its lookup errors (NO_VALID_TAG_FOUND, INVALID_PARENT_NODE) on `clean_tag.casefold()`, which has the
+positions of `clean_tag` iff every character `c` before the reported end has `len(c.casefold()) = 1`.  On texts with a
+character such as `ß`, `ﬁ`, `İ` the real code is outside the model (finding C12-casefold-length-offsets; the harness
+classifies exactly that family). -/
+theorem fold_preserves_length (s : Str) : (Validate.fold s).length = s.length := by simp [Validate.fold]
+
+/-- a fold that lengthens one character, as `casefold` does for `ß`: `ß ↦ ss`, ASCII letters lower-cased -/
+def foldSS (s : Str) : Str := s.flatMap fun c => if c == 'ß' then ['s', 's'] else [c.toLower]
+
+private def tinyNames : List Name := [[['E','v','e','n','t']], [['R','e','d']]]
+private def evText : Str := ['E','v','e','n','t','/','ß','ß','/','R','e','d']
+
+def lookupSpan : FindResult → Option (Nat × Nat)
+  | .invalidParent a b _ => some (a, b)
+  | .noValidTag b => some (0, b)
+  | .found _ _ => none
+
+/-- **With a length-changing fold the offsets leave the tag** (the real `'Event/ßß/Red'`: TAG_EXTENSION_INVALID with
+offsets 11..14 in a 12-character tag, `Red` sits at 9..12): the lookup walk measures the extension terms on the folded
+text.  With the length-preserving fold the same walk reports 9..12. -/
+theorem offsets_length_changing_fold_counterexample :
+    lookupSpan (find (Vocab.build foldSS tinyNames) foldSS evText) = some (11, 14) ∧ evText.length = 12 ∧
+    lookupSpan (find (Vocab.build Validate.fold tinyNames) Validate.fold evText) = some (9, 12) ∧
+    Tree.slice evText 9 12 = ['R','e','d'] := by decide
+
+end HedVerif.C12
